@@ -8,6 +8,8 @@ CONSTANTS
   FixDone = FALSE
   FixPublish = FALSE
   FixStats = FALSE
+  AtomicAdd = TRUE
+  TakeRegistry = TRUE
   Det = FALSE
 POSTCONDITION TraceReport
 CHECK_DEADLOCK FALSE
